@@ -173,6 +173,8 @@ def ring(tier: str, prop: str) -> list[dict]:
         return replay
     if prop == "C09":
         return rollout
+    if prop == "C12":
+        return [r for r in rollout if r["n"] > 1]   # views of an N-environment rollout: no row may mix environments
     return replay + rollout
 
 
@@ -224,6 +226,7 @@ def train(tier: str, prop: str) -> list[dict]:
         c("PPO", "sim_box", 1, 10, "clock", [35]),
         c("PPO", "gym_peer", 1, 6, "rec1", [24]),      # Gymnasium peer with hidden RNG state behind GymToLeraxEnv
         c("DQN", "gym_peer", 1, 3, "rec1", [15], starts=4),
+        c("PPO", "gym_peer", 1, 6, "video", [24], video_interval=1),   # the recorder thread must never drive the peer that is being trained on
         c("PPO", "sim_dict", 2, 4, "rec1", [17], p_fresh=0.5),    # Dict observations with many string keys, often re-run in a fresh interpreter
         c("DQN", "sim_dict", 1, 3, "list", [13], starts=3, p_fresh=0.5),
     ]
@@ -308,17 +311,28 @@ def rollout(tier: str, prop: str) -> list[dict]:
         dict(env="G1Locomotion", L=30, stack=[["TimeLimit", 15]]),
         dict(env="G1Standup", L=30, stack=[["TimeLimit", 15]]),
     ]
+    X, CI, CV, QF, CF = ("exclude_current_positions_from_observation", "include_cinert_in_observation", "include_cvel_in_observation",
+                         "include_qfrc_actuator_in_observation", "include_cfrc_ext_in_observation")
+    ctor = [
+        dict(env="Humanoid", mode="ctor", flags=[X, CI, CV, QF, CF]),
+        dict(env="HumanoidStandup", mode="ctor", flags=[X, CI, CV, QF, CF]),
+        dict(env="Ant", mode="ctor", flags=[X, CF]),
+        dict(env="HalfCheetah", mode="ctor", flags=[X]),
+        dict(env="Hopper", mode="ctor", flags=[X]),
+        dict(env="Swimmer", mode="ctor", flags=[X]),
+        dict(env="Walker2d", mode="ctor", flags=[X]),
+    ]
     if prop == "C12":
         cl = [dict(c, eager=True) for c in classic]  # one eager step per run: every classic-control environment in all three modes
         return cl + mj_quick[:2] if tier == "quick" else cl + mj_quick + mj_rest[:3]
     if prop == "C01":
         return classic[:5] + mj_quick[:1] if tier == "quick" else classic + mj_quick + mj_rest
     # slowest compiles first (G1 ~2 min, MuJoCo 30-60 s) so that they overlap with everything else
-    return g1 + mj_rest + mj_quick + classic + outer
+    return g1 + mj_rest + mj_quick + classic + outer + ctor
 
 
 def g1(tier: str, prop: str) -> list[dict]:
-    clock = [dict(mode="clock", n=200000), dict(mode="clock", n=1000000)]
+    clock = [dict(mode="clock", n=200000), dict(mode="clock", n=1000000), dict(mode="clock", n=2000)]   # the accumulated-rounding allowance grows with n: the short clock is the tight one
     # Every configured range is DISJOINT from the library default, so a range that is not passed through to the
     # randomiser / sampler (and silently falls back to a default) cannot hide inside a superset.
     shifted = {"friction_range": [1.2, 1.5], "friction_loss_scale_range": [2.5, 3.0], "armature_scale_range": [1.1, 1.2],
@@ -339,7 +353,7 @@ def g1(tier: str, prop: str) -> list[dict]:
         dict(mode="task", env="G1Standup", K=8, L=16),
     ]
     if tier == "quick":
-        return clock[:1] + tasks
+        return clock[:1] + clock[2:] + tasks
     swarm = [
         dict(mode="task", env="G1Locomotion", K=16, L=40, kwargs={"friction_range": [0.6, 0.6], "mass_scale_range": [1.0, 1.0], "torso_offset_range": [0.0, 0.5],
                                                                   "lin_vel_x_range": [0.2, 0.4], "gait_frequency_range": [2.0, 2.0]}),
